@@ -57,6 +57,7 @@ RULE = ("part pw: Hypothesis passwords (empty, NUL, specials around 55/56/64/72/
         "four ':'-fields or survives field splitting and base64 decoding with KDF-valid parameters (reaches scrypt) "
         "according to the harness's independent parser; distinct by (string, password). Strings whose own parameters "
         "cost more than N*r*p = 600000 (2.3x the default) are not evaluated (counted in skipped_cost).")
+RULE += (" " + 'sizes part: several (n, r, p, salt length, digest length) parameter sets hashed and verified within one process; pure truncations inside the base64 part must never verify (truncated-hash-accepted).')
 ASSUMPTIONS = [
     "hashlib.scrypt (OpenSSL) and hashlib.sha256 are a correct independent reference for the documented scheme "
     "sha256 pre-hash + scrypt with the parameters embedded in the string",
